@@ -26,6 +26,49 @@ class OrderPool:
         return out
 
 
+class DelayExecutor:
+    """Executor-like pool (has map AND submit, like concurrent.futures executors): tasks COMPLETE in the scripted
+    order (the k-th point of `order` finishes k-th), map() returns results in input order as its contract says."""
+
+    def __init__(self, order):
+        import concurrent.futures as cf
+
+        self.order = list(order)
+        self.ex = cf.ThreadPoolExecutor(max_workers=max(2, len(order)))
+        self.n = 0
+
+    def _delayed(self, f, x, idx):
+        import time
+
+        rank = self.order.index(idx + 1) if (idx + 1) in self.order else idx
+        time.sleep(0.004 * (rank + 1))
+        return f(x)
+
+    def submit(self, f, *a, **k):
+        idx = self.n
+        self.n += 1
+        return self.ex.submit(self._delayed, f, a[0], idx)
+
+    def map(self, f, xs, *a, **k):
+        xs = list(xs)
+        futs = [self.ex.submit(self._delayed, f, x, i) for i, x in enumerate(xs)]
+        return [fu.result() for fu in futs]
+
+    def imap_unordered(self, f, xs, *a, **k):
+        import concurrent.futures as cf
+
+        xs = list(xs)
+        futs = [self.ex.submit(self._delayed, f, x, i) for i, x in enumerate(xs)]
+        for fu in cf.as_completed(futs):
+            yield fu.result()
+
+    def imap(self, f, xs, *a, **k):
+        return iter(self.map(f, xs))
+
+    def shutdown(self):
+        self.ex.shutdown(wait=True)
+
+
 def dispatch_part(ck):
     import numpy as np
     from tempest import Sampler
@@ -70,22 +113,32 @@ def dispatch_part(ck):
                 s = Sampler(log_likelihood=f_blob if blobs else f_scalar, blobs_dtype="float" if blobs else None, **kw)
             else:
                 s = Sampler(log_likelihood=f_blob if blobs else f_scalar, blobs_dtype="float" if blobs else None, pool=OrderPool(order), **kw)
-            try:
-                logl, blob = s._core._log_like(pts)
-            except Exception as ex:
-                ck.violation("dispatch:raised", f"_log_like raised {ex!r} for {strategy} order {order}", {"strategy": strategy, "order": list(order), "blobs": blobs})
-                continue
-            replayed += 1
-            want = pts[:, 0] * 3 + pts[:, 1]
-            bad = None
-            if not np.array_equal(np.asarray(logl, dtype=float), want):
-                bad = f"assembled logl {list(logl)} != positional {list(want)}"
-            elif blobs and not np.array_equal(np.asarray(blob, dtype=float).reshape(-1), pts[:, 0] - 7 * pts[:, 1]):
-                bad = f"assembled blobs {blob!r} not positional"
-            elif n["calls"] != P:
-                bad = f"user likelihood evaluated at {n['calls']} points for a batch of {P}"
-            if bad:
-                ck.violation("dispatch:" + strategy, bad, {"strategy": strategy, "order": list(order), "blobs": blobs})
+            variants = [s]
+            if strategy == "pool" and (ck.tier == "thorough" or hash(order) % 3 == 0):
+                # the same completion order on an executor-like pool (map + submit + imap_unordered available)
+                variants.append(Sampler(log_likelihood=f_blob if blobs else f_scalar, blobs_dtype="float" if blobs else None, pool=DelayExecutor(order), **kw))
+            for vi, s in enumerate(variants):
+                n["calls"] = 0
+                kind = strategy if vi == 0 else "executor"
+                try:
+                    logl, blob = s._core._log_like(pts)
+                except Exception as ex:
+                    ck.violation("dispatch:raised", f"_log_like raised {ex!r} for {kind} order {order}", {"strategy": kind, "order": list(order), "blobs": blobs})
+                    continue
+                finally:
+                    if vi == 1:
+                        s._core.config.pool.shutdown()
+                replayed += 1
+                want = pts[:, 0] * 3 + pts[:, 1]
+                bad = None
+                if not np.array_equal(np.asarray(logl, dtype=float), want):
+                    bad = f"assembled logl {list(logl)} != positional {list(want)}"
+                elif blobs and not np.array_equal(np.asarray(blob, dtype=float).reshape(-1), pts[:, 0] - 7 * pts[:, 1]):
+                    bad = f"assembled blobs {blob!r} not positional"
+                elif n["calls"] != P:
+                    bad = f"user likelihood evaluated at {n['calls']} points for a batch of {P}"
+                if bad:
+                    ck.violation("dispatch:" + kind, bad, {"strategy": kind, "order": list(order), "blobs": blobs})
     ck.sample({"dispatch_orders": [list(o) for s_, o in sorted(orders)[:4]]})
     return {"states": states, "transitions": trans, "dispatch_orders_replayed": replayed, "dispatch_distinct_orders": len(orders), "dispatch_constants": {"P": P, "W": W}}
 
